@@ -95,6 +95,6 @@ def run(ctx, report):
         report.guard("C20.WALK", walk, ctx, report, facts, config)
         report.guard("C20.SAME", S.slot, ctx, report, "C20.SAME", facts, config)
         report.guard("C20.SAME", S.lockstep, ctx, report, "C20.SAME", facts, config)
-        report.guard("C20.SAME", B.ids, ctx, report, "C20.SAME", facts, config)
+        report.guard("C20.SAME", B.ids, ctx, report, "C20.SAME", facts, config, True)
     P.check(ctx, report, "C20.TOTAL", ["panic_constructs"])
     P.check(ctx, report, "C20.WALK", ["partial_traversals"])
